@@ -172,10 +172,38 @@ theorem C26_dif_fails_iff {ops : List Op} (hn : noSusp ops) :
         · exact h (i.mgu.sat.mono m1)
         · exact i.notEntailed d (m2 d hd) (he.mono m1)
 
+/-- dif/2 SOUNDNESS AND COMPLETENESS over finite trees (the signature has infinitely many
+    function symbols: `freshName`): a history of unifications and dif/2 posts fails — in whatever
+    order — iff the conjunction of its equations and disequations has no solution. -/
+theorem C26_dif_fails_iff_unsatisfiable {ops : List Op} (hn : noSusp ops) :
+    run ops = none ↔
+      ¬∃ θ, Unifies θ (eqsOf ops) ∧ ∀ d ∈ difsOf ops, d.1.subst θ ≠ d.2.subst θ := by
+  rw [C26_dif_fails_iff hn]
+  constructor
+  · rintro (h | ⟨d, hd, he⟩) ⟨θ, hθ, hdif⟩
+    · exact h ⟨θ, hθ⟩
+    · exact hdif d hd (he θ hθ)
+  · intro h
+    by_cases hs : Sat (eqsOf ops)
+    · right
+      obtain ⟨σ, hσ⟩ := exists_mgu hs
+      apply Classical.byContradiction
+      intro hne
+      exact h (independent hσ (difsOf ops) (fun d hd he => hne ⟨d, hd, he⟩))
+    · exact Or.inl hs
+
+/-- the end store of every successful history (with freeze/when goals too) is satisfiable: some
+    solution of all equations posted falsifies every disequation posted. -/
+theorem C26_end_store_satisfiable {ops : List Op} {st : Store} (h : run ops = some st) :
+    ∃ θ, Unifies θ st.eqs ∧ ∀ d ∈ st.allDifs, d.1.subst θ ≠ d.2.subst θ := by
+  obtain ⟨i, _, _, _⟩ := run_target h
+  exact independent i.mgu st.allDifs i.notEntailed
+
 /-! ### dif/2 alone -/
 
-/-- `dif(s,t)` fails exactly when `s` and `t` are identical under the current bindings. -/
-theorem C26_dif_fails_iff_identical (st : Store) (s t : Term) (rest : List Op) :
+/-- `dif(s,t)` fails when `s` and `t` are identical under the current bindings (the converse:
+    `C26_dif_not_identical`, and both directions for a dif posted alone: `C26_dif_alone`). -/
+theorem C26_dif_identical_fails (st : Store) (s t : Term) (rest : List Op) :
     applyS st.σ s = applyS st.σ t → exec (.basic (.dif s t) :: rest) st = none := by
   intro e
   have : identical st.σ (s, t) = true := (eqb_iff _ _).mpr e
@@ -219,7 +247,7 @@ theorem C26_dif_alone (s t : Term) :
   have h0 : ∀ u, applyS Store.init.σ u = u := fun _ => rfl
   by_cases e : s = t
   · subst e
-    have := C26_dif_fails_iff_identical Store.init s s [] rfl
+    have := C26_dif_identical_fails Store.init s s [] rfl
     refine ⟨⟨fun _ => rfl, fun _ => this⟩, ?_⟩
     intro st h
     unfold run at h
